@@ -41,6 +41,11 @@ fn predeclare_types(genv: &mut GlobalTypeEnv, hir: &hir::PackageHir, hir_table: 
                         .collect(),
                 );
             }
+            // a foreign type can be named by a signature that stands before it, or in a file
+            // of the package that is read earlier
+            hir::Def::ExternType(ext) => {
+                genv.register_extern_type(ext.goml_name.to_ident_name());
+            }
             _ => {}
         }
     }
